@@ -65,6 +65,9 @@ _ctx = {}
 _SETUP_DONE = []
 
 
+RULE = RULE + ' Round 16: workload B also with a user-supplied detector mask (beam stop / dead pixels).'
+
+
 def setup():
     if _SETUP_DONE:
         return
